@@ -108,7 +108,7 @@ func (p *PromQueryLabelsController) Series(w http.ResponseWriter, r *http.Reques
 		return
 	}
 
-	res, err := p.QueryLabelsService.Series(internalCtx, seriesParams.Match, params.start.UnixMilli(),
+	res, err := p.QueryLabelsService.PromSeries(internalCtx, seriesParams.Match, params.start.UnixMilli(),
 		params.end.UnixMilli(), 2)
 	if err != nil {
 		PromError(500, err.Error(), w)
